@@ -681,6 +681,57 @@ def suite_fault_listing(binf, tier, rng):
                 out["dist"][kind] = out["dist"].get(kind, 0) + 1
     return out
 
+def suite_fault_damaged(binf, tier, rng):
+    """C01 with faults: the content of an entry is damaged (same length), and during a checked retrieval one system call
+    fails (EIO, or EINTR which the standard library re-issues).  Whatever fails, the call answers an error or hands out exactly
+    the stored bytes — here an error, the stored bytes being gone; no destination holds the damaged bytes after a success."""
+    out = {"runs": 0, "skipped": 0, "failures": [], "dist": {}}
+    fls = ["sync"] if binf == "sync" else (["async"] if tier == "quick" else ["sync", "async"])
+    K = kx("dmg")
+    for fl in fls:
+        for n in (20000,) if tier == "quick" else (20000, 5, 70000):
+            D = bytes((i * 17 + 3) % 251 for i in range(n))
+            bad = bytearray(D); bad[n // 2] ^= 0x40; bad = bytes(bad)
+            sri = hashes.sri("sha256", D)
+            setup = [{"op": "write", "fl": "sync", "key": K, "data": D.hex(), "algo": "sha256"},
+                     {"op": "damage", "kind": "set", "loc": ref.loc_c(ref.content_rel(sri)), "data": bad.hex()}]
+            def mk(cache, ext, _setup=setup):
+                ip = ImplProc(binf, cache, ext); ip.op(_setup[0]); ip.close()
+                O.apply_damage(_setup[1], cache, ext)
+            scen = [("copy by key", {"op": "copy", "fl": fl, "by": "key", "checked": True, "key": K, "to": "out1"}),
+                    ("copy by address", {"op": "copy", "fl": fl, "by": "hash", "checked": True, "sri": sri, "to": "out1"}),
+                    ("hard link by key", {"op": "hard_link", "fl": fl, "by": "key", "checked": True, "key": K, "to": "out1"}),
+                    ("read by key", {"op": "read", "fl": fl, "key": K}),
+                    ("read by address", {"op": "read_hash", "fl": fl, "sri": sri})]
+            for what, op in scen if tier != "quick" else scen[:2] + scen[3:4]:
+                def after(cache, ext, C, errno):
+                    p = os.path.join(ext, "out1")
+                    if os.path.lexists(p) and os.path.isfile(p):
+                        with open(p, "rb") as f: return {"dest": f.read()}
+                    return {"dest": None}
+                res = T.fault_sweep(binf, mk, [op], 0, errnos=("EIO", "EINTR"), after=after, jobs=8,
+                                    select=lambda c: c["name"] in ("read", "pread64", "readv", "openat", "open", "statx", "fstat", "newfstatat", "copy_file_range", "sendfile", "linkat", "link") and T._inside(c))
+                for r in res:
+                    out["runs"] += 1
+                    if not r["ok"]:
+                        out["skipped"] += 1; continue
+                    ans = (r["results"] or [None])[0]
+                    tag = f"{fl} {what} of an entry whose {n}-byte content is damaged / {r['errno']} at {T.brief(r['call'])[:70]}"
+                    rep = {"flavour": binf, "setup": setup, "ops": [op], "errno": r["errno"], "at": T.brief(r["call"])}
+                    cls = None if ans is None else ans.get("r")
+                    out["dist"][f"{what}: {cls}"] = out["dist"].get(f"{what}: {cls}", 0) + 1
+                    if cls in (None, "panic", "hang"):
+                        out["failures"].append({"concrete": True, "text": f"{tag}: the call did not return a value ({cls})", "replay": rep}); continue
+                    if cls == "ok":
+                        if op["op"] in ("read", "read_hash"):
+                            if ans.get("v") != D.hex():
+                                out["failures"].append({"concrete": True, "text": f"{tag}: a checked read returned bytes that are not the stored ones", "replay": rep})
+                        else:
+                            dest = r["after"]["dest"]
+                            if dest != D:
+                                out["failures"].append({"concrete": True, "text": f"{tag}: the call reported success and the destination holds {'nothing' if dest is None else 'bytes that are not the stored ones'}", "replay": rep})
+    return out
+
 def suite_eintr(binf, tier, rng):
     """C08 under interrupted system calls: a streamed write whose declared size and integrity are CORRECT, with one write(2)
     of its data interrupted (EINTR; the standard library re-issues it).  If every call of the writer answered ok, commit must
